@@ -74,11 +74,12 @@ impl BlockEncoder {
             self.read_window();
 
             if self.blocks.is_empty() {
-                if self.nb_pkt_sent == 0 {
-                    log::debug!("Empty file ? Send a pkt containing close object flag");
+                // No block and nothing sent: either the object is empty, or its first block
+                // could not be read / encoded. Only an empty object is closed by a lone packet
+                if self.nb_pkt_sent == 0 && self.file.object.transfer_length == 0 {
+                    log::debug!("Empty file, send a pkt containing close object flag");
                     self.nb_pkt_sent += 1;
 
-                    debug_assert!(self.file.object.transfer_length == 0);
                     return Some(pkt::Pkt {
                         payload: Vec::new(),
                         transfer_length: self.file.object.transfer_length,
